@@ -19,6 +19,15 @@ theorem Fits.facts {g : Nat → Nat → Nat} {h : Heap} {v v' : RV} (f : Fits g 
       omega
     exact ⟨a3, ⟨fun heq => absurd heq hne, fun hle => by omega⟩, fun heq => absurd heq hne, fun hg2 => Or.inr (a4 hg2)⟩
 
+/-- capacity and storage identity after a valid single-vector operation `o` that took the vector `v` (holding `l`) to `v'`
+(holding `l'`), as a user of the vector sees them -/
+def CapFacts (g : Nat → Nat → Nat) (v v' : RV) (l' : List Int) : VOp → Prop
+  | .shrink => v'.cap = l'.length
+  | .reserve n => n ≤ v'.cap ∧ v.cap ≤ v'.cap ∧ (v'.base = v.base ↔ n ≤ v.cap) ∧ (v'.base = v.base → v'.cap = v.cap) ∧
+      (Geo g → v'.cap = v.cap ∨ 2 * v.cap ≤ v'.cap)
+  | _ => v.cap ≤ v'.cap ∧ (v'.base = v.base ↔ l'.length ≤ v.cap) ∧ (v'.base = v.base → v'.cap = v.cap) ∧
+      (Geo g → v'.cap = v.cap ∨ 2 * v.cap ≤ v'.cap)
+
 /-! ### lexicographic order -/
 
 theorem lexLt_irrefl : ∀ (a : List Int), lexLt a a = false
